@@ -3,5 +3,6 @@ CONSTANTS
   MaxVox = 4
   Seed = 1
 INVARIANT T_Covers
+INVARIANT T_Touching
 INVARIANT EmitC
 CHECK_DEADLOCK FALSE
